@@ -148,7 +148,7 @@ def run_history(ops, want_corr=True):
                 if a not in o[1] and not new[a]:
                     new[a] = old_exp.get(a)
         exp = new
-        steps.append({'i': i, 'kind': 'create' if k == 'create' else rec, 'emitted': em, 'all': list(allst), 'exp': O.row_literal(exp), 'pre': pre,
+        steps.append({'i': i, 'kind': 'create' if k == 'create' else rec, 'emitted': em, 'all': list(allst), 'exp': O.row_literal(exp), 'pre': pre, 'old_exp': old_exp,
                       'post': post, 'persisted': persisted, 'touched': copy.deepcopy(touched), 'text': [t for t, _ in r.calls]})
         touched = dict((a, []) for a in O.ATTR_COL)
     return steps
@@ -207,7 +207,7 @@ def run(ctx):
         for fn in sorted(os.listdir(CORPUS)):
             with open(os.path.join(CORPUS, fn)) as f:
                 hists.append(json.load(f)['history'])
-    for _ in range(160 if quick else 3000):
+    for _ in range(90 if quick else 1500):
         hists.append(O.gen_history(rng))
     prop_cases, prop_meta, corr_cases, corr_meta = [], [], [], []
     for hi, ops in enumerate(hists):
@@ -238,7 +238,7 @@ def run(ctx):
                 corr_meta.append((ops, s))
     # counters
     cnt_cases, cnt_meta = [], []
-    for _ in range(40 if quick else 600):
+    for _ in range(25 if quick else 300):
         h = []
         for _ in range(rng.randint(1, 6)):
             if rng.random() < 0.6:
@@ -288,6 +288,11 @@ def run(ctx):
         for j in badc:
             ops, s, a = col_meta[j]
             cause = '>'.join(s['touched'].get(a, [])) or 'untouched'
+            if s.get('pre') and s.get('old_exp') is not None:
+                pc = [c for c in s['pre'] if c['f'] == O.ATTR_COL[a]][0]
+                if pc['val'] is not None and pc['val'] == pc['prev'] and not s['old_exp'].get(a):
+                    # the value manager still remembers, as previous_value, a value the row no longer stores (column deleted earlier)
+                    a, cause = 'column', 'stale-previous-after-delete'
             who = {'qs_update': 'ModelQuerySet.update', 'create': 'Model.save(new)', 'save': 'Model.save', 'update': 'Model.update',
                    'batch_save': 'Model.save(batch)', 'delete': 'Model.delete'}[s['kind']]
             key = '%s.%s.%s' % (who, a, cause)
